@@ -87,6 +87,58 @@ def build(spec):
     raise ValueError(f'bad spec {spec!r}')
 
 
+def build_direct(spec):
+    """spec -> AST through the PUBLIC constructors only (no parser callback): the tree the documented grammar assigns.
+    Children are cast (copied) to the parameter types first, which is what 'operands narrowed to the parameter types' means."""
+    import math
+    from hpl.ast import (HplArrayAccess, HplBinaryOperator, HplFieldAccess, HplFunctionCall, HplLiteral, HplQuantifier, HplRange, HplSet,
+                         HplThisMessage, HplUnaryOperator, HplVarReference)
+    from hpl.ast.expressions import BuiltinBinaryOperator, BuiltinUnaryOperator
+    from hpl.types import DataType
+    k = spec[0]
+    if k == 'lit':
+        v = spec[1]
+        if v is True or v is False:
+            return HplLiteral(str(v), v)
+        if v < 0 or str(v).startswith('-'):
+            return HplUnaryOperator(BuiltinUnaryOperator.MINUS, HplLiteral(num_token(-v), -v))
+        return HplLiteral(num_token(v), v)
+    if k == 'str':
+        t = '"' + spec[1] + '"'
+        return HplLiteral(t, t)
+    if k == 'const':
+        return HplLiteral(spec[1], {'PI': math.pi, 'E': math.e, 'INF': float('inf'), 'NAN': transformer().number_constant('NAN').value}[spec[1]])
+    if k == 'f':
+        return HplFieldAccess(HplThisMessage(), spec[1])
+    if k == 'var':
+        return HplVarReference('@' + spec[1])
+    if k == 'fa':
+        return HplFieldAccess(build_direct(spec[1]).cast(DataType.MESSAGE), spec[2])
+    if k == 'idx':
+        return HplArrayAccess(build_direct(spec[1]).cast(DataType.ARRAY), build_direct(spec[2]).cast(DataType.NUMBER))
+    if k == 'neg':
+        return HplUnaryOperator(BuiltinUnaryOperator.MINUS, build_direct(spec[1]).cast(DataType.NUMBER))
+    if k == 'not':
+        return HplUnaryOperator(BuiltinUnaryOperator.NOT, build_direct(spec[1]).cast(DataType.BOOL))
+    if k == 'bin':
+        op = None
+        for m in BuiltinBinaryOperator:
+            if m.value.token == spec[1]:
+                op = m.value
+        a = build_direct(spec[2]).cast(op.parameter1)
+        b = build_direct(spec[3]).cast(op.parameter2)
+        return HplBinaryOperator(op, a, b)
+    if k == 'q':
+        return HplQuantifier(spec[1], spec[2], build_direct(spec[3]), build_direct(spec[4]))
+    if k == 'call':
+        return HplFunctionCall(spec[1], tuple(build_direct(a) for a in spec[2:]))
+    if k == 'set':
+        return HplSet(tuple(build_direct(a) for a in spec[1:]))
+    if k == 'range':
+        return HplRange(build_direct(spec[1]), build_direct(spec[2]), exclude_min=bool(spec[3]), exclude_max=bool(spec[4]))
+    raise ValueError(f'bad spec {spec!r}')
+
+
 def render(spec) -> str:
     """fully parenthesised HPL text of a spec (multi-argument calls have no concrete syntax: rendered with commas)"""
     k = spec[0]
